@@ -29,6 +29,10 @@ func init() { commands["C16"] = runC16 }
 
 const markerSchema = "mrk_sch_7f3a"
 const otherSchema = "oth_sch_91c2"
+
+// devSchema: name of the from-state schema in the Planner.PlanSchema flow (the current schema is a
+// renamed shallow copy: objects hanging off a dropped/modified foreign key still belong to it)
+const devSchema = "dev_sch_5c1e"
 const customQual = "cust_q_55e0"
 
 type c16Case struct {
@@ -143,7 +147,7 @@ func c16Builder(e *Env, pool *hx.Pool) {
 func c16Scope(e *Env, pool *hx.Pool, r *hx.Rand, n int) {
 	for k := 0; k < n; k++ {
 		qn := hx.Pick(r, []string{"unset", "empty", "custom"})
-		mode := migrate.PlanMode(hx.Pick(r, []int{0, 1, 2, 3}))
+		mode := migrate.PlanMode(hx.Pick(r, []int{0, 1, 2, 3, 4}))
 		var changes []schema.Change
 		var abs []map[string]any
 		m := 1 + r.Intn(4)
@@ -225,6 +229,18 @@ func c16Marker(e *Env, c c16Case) {
 	}
 	t1, t2, t3 := mk(s, "TBLA"), mk(s, "TBLB"), mk(s, "TBLC")
 	t1.AddForeignKeys(schema.NewForeignKey("fk_a_b").SetTable(t1).AddColumns(t1.Columns[1]).SetRefTable(t2).AddRefColumns(t2.Columns[0]))
+	// from-state twins of TBLA / TBLB living in a differently named schema
+	dev := schema.New(devSchema)
+	mkDev := func(name string) *schema.Table {
+		t := schema.NewTable(name).SetSchema(dev)
+		id := schema.NewIntColumn("id", ity)
+		ref := schema.NewNullIntColumn("ref", ity)
+		t.AddColumns(id, ref).SetPrimaryKey(schema.NewPrimaryKey(id))
+		dev.AddTables(t)
+		return t
+	}
+	d1, d2 := mkDev("TBLA"), mkDev("TBLB")
+	d1.AddForeignKeys(schema.NewForeignKey("fk_a_b").SetTable(d1).AddColumns(d1.Columns[1]).SetRefTable(d2).AddRefColumns(d2.Columns[0]))
 	var changes []schema.Change
 	pick := func() []schema.Change {
 		nc := schema.NewNullIntColumn("added", ity)
@@ -241,6 +257,9 @@ func c16Marker(e *Env, c c16Case) {
 			{&schema.ModifyTable{T: t2, Changes: []schema.Change{&schema.RenameIndex{From: t2.Indexes[0], To: schema.NewIndex("ix_renamed").SetTable(t2).AddColumns(t2.Columns[1])}}}},
 			{&schema.ModifyTable{T: t2, Changes: []schema.Change{&schema.ModifyColumn{From: t2.Columns[1], To: schema.NewIntColumn("ref", ity), Change: schema.ChangeNull}}}},
 			{&schema.AddTable{T: t3}},
+			// foreign keys of the from state (other schema name) dropped / modified on a table of the desired state
+			{&schema.ModifyTable{T: t1, Changes: []schema.Change{&schema.DropForeignKey{F: d1.ForeignKeys[0]}}}},
+			{&schema.ModifyTable{T: t1, Changes: []schema.Change{&schema.ModifyForeignKey{From: d1.ForeignKeys[0], To: t1.ForeignKeys[0], Change: schema.ChangeDeleteAction}}}},
 		}
 		if t1.Attrs != nil {
 			opts = append(opts, []schema.Change{&schema.ModifyTable{T: t1, Changes: []schema.Change{&schema.ModifyAttr{From: &schema.Comment{Text: "comment on TBLA"}, To: &schema.Comment{Text: "new comment"}}}}})
@@ -249,6 +268,16 @@ func c16Marker(e *Env, c c16Case) {
 	}
 	for i := 0; i < 1+r.Intn(3); i++ {
 		changes = append(changes, pick()...)
+	}
+	modSchema := false
+	if !migrate.PlanMode(c.Mode).Is(migrate.PlanModeInPlace) && r.Chance(1, 5) {
+		// a schema attribute change is not schema-agnostic: a scoped plan must refuse it (allowed in place only)
+		modSchema = true
+		var ma schema.Change = &schema.ModifyAttr{From: &schema.Charset{V: "utf8mb4"}, To: &schema.Charset{V: "latin1"}}
+		if c.Dialect == "postgres" {
+			ma = &schema.ModifyAttr{From: &schema.Comment{Text: "old"}, To: &schema.Comment{Text: "tenant schema"}}
+		}
+		changes = append(changes, &schema.ModifySchema{S: s, Changes: []schema.Change{ma}})
 	}
 	if c.TwoSch {
 		ot := mk(other, "TBLO")
@@ -287,6 +316,14 @@ func c16Marker(e *Env, c c16Case) {
 		}
 		return
 	}
+	if modSchema && c.Qual != "unset" && err == nil {
+		var all []string
+		for _, ch := range plan.Changes {
+			all = append(all, ch.Cmd)
+		}
+		e.Res.Violate("failing-input", "schema-change-in-scoped-plan", fmt.Sprintf("%s qualifier=%s mode=%d: a change set holding a ModifySchema was planned instead of being rejected: %s", c.Dialect, c.Qual, c.Mode, trunc(strings.Join(all, "; "), 400)), "Props.C16.scope_rejects", replay)
+		return
+	}
 	if err != nil || c.Qual == "unset" {
 		return
 	}
@@ -295,12 +332,12 @@ func c16Marker(e *Env, c c16Case) {
 	check := func(stmt, where string) bool {
 		ids := splitIdents(stmt, qb)
 		for _, id := range ids {
-			if id == markerSchema {
+			if id == markerSchema || id == devSchema {
 				e.Res.Violate("failing-input", "schema-name-leaks", fmt.Sprintf("%s qualifier=%s mode=%d: %s mentions the schema name: %s", c.Dialect, c.Qual, c.Mode, where, trunc(stmt, 300)), "Props.C16.no_own_schema", map[string]any{"case": c, "stmt": stmt})
 				return false
 			}
 		}
-		if strings.Contains(stmt, markerSchema) {
+		if strings.Contains(stmt, markerSchema) || strings.Contains(stmt, devSchema) {
 			e.Res.Violate("failing-input", "schema-name-leaks", fmt.Sprintf("%s qualifier=%s mode=%d: %s contains the schema name: %s", c.Dialect, c.Qual, c.Mode, where, trunc(stmt, 300)), "Props.C16.no_own_schema", map[string]any{"case": c, "stmt": stmt})
 			return false
 		}
@@ -382,9 +419,9 @@ func runC16(e *Env) error {
 	cases := make([]c16Case, nm)
 	for i := range cases {
 		cases[i] = c16Case{Dialect: hx.Pick(r, []string{"mysql", "postgres"}), Qual: hx.Pick(r, []string{"unset", "empty", "empty", "custom", "custom"}),
-			Mode: hx.Pick(r, []int{0, 2, 3}), Seed: r.Uint64(), TwoSch: r.Chance(1, 6)}
+			Mode: hx.Pick(r, []int{0, 1, 2, 3, 4}), Seed: r.Uint64(), TwoSch: r.Chance(1, 6)}
 	}
 	parallel(e.Workers, len(cases), func(i int) { c16Marker(e, cases[i]) })
-	e.Res.Rule = fmt.Sprintf("(A) 5x5 schema-name pairs x 3 qualifiers x {Table, TableColumn, TableResource(index), SchemaResource, RefTable} of the real Builder vs the model; (B) %d random change lists (AddSchema/DropSchema/ModifySchema/Add|Modify|DropTable in 4 schema names) x qualifier x mode for CheckChangesScope vs the model; (C) %d marker cases: 1-3 change groups out of {create, drop, add column+index, drop index, add fk, drop fk, rename table, rename column, rename index, modify column, modify comment}, PostgreSQL enums, optional second schema, x {mysql, postgres} x qualifier {unset, empty, custom} x mode {unset, deferred, dump}; non-trivial = a qualifier was requested; distinct by the whole case", ns, nm)
+	e.Res.Rule = fmt.Sprintf("(A) 5x5 schema-name pairs x 3 qualifiers x {Table, TableColumn, TableResource(index), SchemaResource, RefTable} of the real Builder vs the model; (B) %d random change lists (AddSchema/DropSchema/ModifySchema/Add|Modify|DropTable in 4 schema names) x qualifier x mode for CheckChangesScope vs the model; (C) %d marker cases: 1-3 change groups out of {create, drop, add column+index, drop index, add fk, drop fk, rename table, rename column, rename index, modify column, modify comment, drop/modify of a from-state foreign key whose tables live in a differently named (dev) schema, a schema attribute change (must be refused outside in-place mode)}, PostgreSQL enums, optional second schema, x {mysql, postgres} x qualifier {unset, empty, custom} x mode {unset, in-place, deferred, dump, unsorted dump}; non-trivial = a qualifier was requested; distinct by the whole case", ns, nm)
 	return nil
 }
